@@ -19,6 +19,9 @@ var poolChoice = []LeafDef{
 	{"/ch/tun/tnote", []string{"t1", "t2"}, "string"},
 	{"/ch/alpha-beta", []string{"n1", "n2"}, "string"},
 	{"/ch/other", []string{"o1", "o2"}, "string"},
+	{"/ch/gamma-stats", []string{"s1", "s2"}, "string"},
+	{"/ch/tun2", []string{"u1", "u2"}, "string"},
+	{"/ch/alpha-c.bak", []string{"k1", "k2"}, "string"},
 	{"/svc[id=s1]/vlan", []string{"10", "20"}, "uint"},
 	{"/svc[id=s1]/vlan-name", []string{"v1", "v2"}, "string"},
 	{"/svc[id=s1]/vrf", []string{"r1", "r2"}, "string"},
@@ -109,4 +112,14 @@ func resolveChoices(m *model.Intents, winners map[string]model.Winner) map[strin
 
 func isChoicePath(k string) bool {
 	return strings.HasPrefix(k, "/ch/") || strings.HasPrefix(k, "/svc[")
+}
+
+// isChoiceMember: the leaf path lies in a member of one of the choices of the schema.
+func isChoiceMember(k string) bool {
+	for _, cd := range choiceDefs {
+		if inst, _ := cd.member(k); inst != "" {
+			return true
+		}
+	}
+	return false
 }
